@@ -670,6 +670,8 @@ namespace internal
 			RawBounds Find(const HashTupleKey<Items...>& hashTupleKey, VersionKeeper version) const
 			{
 				ConstKeyIterator keyIter = mHashMultiMap.Find(hashTupleKey);
+				if (!keyIter)
+					return RawBounds();
 				return RawBounds(keyIter->key, keyIter->GetBegin(), keyIter->GetCount() + 1, version);
 			}
 
